@@ -299,10 +299,14 @@ pub fn migrate_unbond_wait_lists(
 
         for res in old_unbond_wait_list_entries {
             let (key, amount) = res?;
-            let unbond_wait_entity = UnbondWaitEntity {
-                bsei_amount: amount,
-                stsei_amount: Uint128::zero(),
-            };
+            // the same user may already hold a new-format request for this batch: add to it
+            let mut unbond_wait_entity = new_unbond_wait_list
+                .may_load(&key)?
+                .unwrap_or(UnbondWaitEntity {
+                    bsei_amount: Uint128::zero(),
+                    stsei_amount: Uint128::zero(),
+                });
+            unbond_wait_entity.bsei_amount += amount;
             new_unbond_wait_list.save(&key, &unbond_wait_entity)?;
             removed_keys.push(key);
             num_migrated_entries += 1;
